@@ -9,4 +9,5 @@ let table = [
   "throttle", Throttle.accept;
   "gate", Gate.accept;
   "poll", Poll.accept;
+  "chain", Chain.accept;
 ]
